@@ -29,7 +29,7 @@ pub(crate) struct IcmpDatagram {
     pub message: icmp_utils::Message,
 }
 
-#[derive(Debug, Clone)]
+#[derive(Clone)]
 pub(crate) struct TcpConnectionMeta {
     /// Address of a VPN client made the connection request
     pub client_address: IpAddr,
@@ -42,6 +42,22 @@ pub(crate) struct TcpConnectionMeta {
     /// May contain a platform name of the VPN client and name of the application
     /// initiated the request
     pub user_agent: Option<String>,
+}
+
+impl Debug for TcpConnectionMeta {
+    fn fmt(&self, f: &mut Formatter<'_>) -> std::fmt::Result {
+        // The first label of the SNI may carry credentials
+        f.debug_struct("TcpConnectionMeta")
+            .field("client_address", &self.client_address)
+            .field("destination", &self.destination)
+            .field("auth", &self.auth)
+            .field(
+                "tls_domain",
+                &crate::net_utils::scrub_sni(self.tls_domain.clone()),
+            )
+            .field("user_agent", &self.user_agent)
+            .finish()
+    }
 }
 
 pub(crate) struct UdpMultiplexerMeta {
